@@ -411,7 +411,11 @@ def edge_case(rng, cid):
     return Case(cid, [], b.ops, tag="td-edge-%d" % r)
 
 
+_FOCUS = [None]
+
+
 def gen(rng, tier, n=None, focus=None):
+    _FOCUS[0] = focus
     n = n or (140 if tier == "quick" else 1500)
     out = []
     for i in range(n):
@@ -480,7 +484,9 @@ def nontrivial(case, obs):
         _measure(case, obs)
         p = os.path.join(os.path.dirname(os.path.abspath(__file__)), "..", "..", "evidence")
         os.makedirs(p, exist_ok=True)
-        json.dump(_MEASURED, open(os.path.join(p, "C15-measured-tests.json"), "w"), indent=1)
+        name = {"c15": "C15", None: "C10"}.get(_FOCUS[0])
+        if name:
+            json.dump(_MEASURED, open(os.path.join(p, name + "-measured-tests.json"), "w"), indent=1)
     except Exception:
         pass
     return any(c in (3, 4) and len(a) > 4 and len(o) > 2 and o[0] >= 0 for (c, a), o in zip(case.ops, obs))
